@@ -329,6 +329,18 @@ def getElementsByTagNameAsIs : Nat → Heap → Id → Nat → List Id
     (childList h n).flatMap (fun c =>
       (if h.kind c = .elem ∧ h.name c = tag then [c] else []) ++ getElementsByTagNameAsIs fuel h c tag)
 
+/-- Python `list.__eq__`: same length and pairwise equal (identity first, then `==`) -/
+def all2 {α} (p : α → α → Bool) : List α → List α → Bool
+  | [], [] => true
+  | x :: xs, y :: ys => p x y && all2 p xs ys
+  | _, _ => false
+
+/-- equality of two attribute values that are fragments or absent -/
+def eqOpt (p : Id → Id → Bool) : Option Id → Option Id → Bool
+  | none, none => true
+  | some f, some g => p f g
+  | _, _ => false
+
 /-- `Node.__eq__` / `isEqualNode` (text nodes compare as strings): same `nodeName`, equal `attributes` (the
     fragments held under `self` and `title`), equal child lists -/
 def eqNode : Nat → Heap → Id → Id → Bool
@@ -337,17 +349,10 @@ def eqNode : Nat → Heap → Id → Id → Bool
     if h.kind a = .text ∨ h.kind b = .text then
       h.kind a = .text && h.kind b = .text && h.text a == h.text b
     else
-      let eqOpt : Option Id → Option Id → Bool := fun x y => match x, y with
-        | none, none => true
-        | some f, some g => f == g || eqNode fuel h f g
-        | _, _ => false
-      let rec eqList : List Id → List Id → Bool
-        | [], [] => true
-        | x :: xs, y :: ys => (x == y || eqNode fuel h x y) && eqList xs ys
-        | _, _ => false
       h.kind a == h.kind b && (h.kind a != .elem || h.name a == h.name b) &&
-      eqOpt (h.attr a) (h.attr b) && eqOpt (h.attr2 a) (h.attr2 b) &&
-      eqList (childList h a) (childList h b)
+      eqOpt (fun f g => f == g || eqNode fuel h f g) (h.attr a) (h.attr b) &&
+      eqOpt (fun f g => f == g || eqNode fuel h f g) (h.attr2 a) (h.attr2 b) &&
+      all2 (fun x y => x == y || eqNode fuel h x y) (childList h a) (childList h b)
 
 /-- `parent = self; while parent is not None: …` : the chain from `n` upwards, or `inl` when `stop` is met -/
 def chainUp : Nat → Heap → Id → Id → List Id → Option (List Id)
